@@ -436,6 +436,10 @@ class Driver:
                     if cfg.get("slip"):
                         v = rng.randint(20, 120)
                     self.bars.append({"kind": "bar", "arg": {"p": p, "t": t, "o": o, "h": h, "l": l, "c": c, "v": v}})
+            if rng.random() < 0.08 and some:
+                # a second feed delivers another bar of one of the pairs with the same timestamp
+                last = self.bars[-1]["arg"]
+                self.bars.append({"kind": "bar", "arg": dict(last, dup=True, v=max(1, last["v"] // 2))})
         self.ncalls = {}
 
     def policy(self, t, obs, out_steps):
